@@ -18,7 +18,7 @@ LEGS = [(2, 0), (4, 0), (6, 0), (-2, 0), (-4, 0), (0, 2), (0, 4), (0, 6), (0, -2
         (6, 8), (8, 6), (-6, 8), (8, -6), (3, 4), (4, 3), (-4, 3), (3, -4)]
 
 
-def build_network(edges, res, margin):
+def build_network(edges, res, margin, scale=1):
     """edges: list of geometries (lists of integer points). Nodes are created per distinct end point."""
     from tracklib.core.network import Network, Node, Edge
     from tracklib.core.track import Track
@@ -29,7 +29,7 @@ def build_network(edges, res, margin):
     net = Network()
     nid = {}
     for j, g in enumerate(edges):
-        tr = Track([Obs(ENUCoords(float(p[0]), float(p[1]), 0.0), ObsTime()) for p in g], j + 1)
+        tr = Track([Obs(ENUCoords(float(p[0]) * scale, float(p[1]) * scale, 0.0), ObsTime()) for p in g], j + 1)
         computeAbsCurv(tr)
         e = Edge(j + 1, tr)
         e.orientation = Edge.DOUBLE_SENS
@@ -41,7 +41,7 @@ def build_network(edges, res, margin):
             if p not in nid:
                 nid[p] = len(nid) + 1
         net.addEdge(e, Node(nid[a], tr.getFirstObs().position), Node(nid[b], tr.getLastObs().position))
-    net.createSpatialIndex(resolution=res, margin=margin, verbose=False)
+    net.createSpatialIndex(resolution=(res if res is None or scale == 1 else (res[0] * scale, res[1] * scale)), margin=margin, verbose=False)
     net.prepare(verbose=False)
     return net
 
@@ -55,7 +55,7 @@ def rat(v, dens):
     return None
 
 
-def abstract_state(st, edges):
+def abstract_state(st, edges, scale=1):
     out = {"e": -1, "lat": True, "p": [0, 0, 1], "ds": [0, 1], "dt": [0, 1]}
     try:
         p, elem, ds, dt = st
@@ -69,7 +69,7 @@ def abstract_state(st, edges):
     g = edges[elem]
     n2s = sorted(v for v in ({(g[k + 1][0] - g[k][0]) ** 2 + (g[k + 1][1] - g[k][1]) ** 2 for k in range(len(g) - 1)} | {1}) if v > 0)
     try:
-        x, y, ds, dt = float(p.getX()), float(p.getY()), float(ds), float(dt)
+        x, y, ds, dt = float(p.getX()) / scale, float(p.getY()) / scale, float(ds) / scale, float(dt) / scale
     except Exception:
         out["lat"] = False
         return out
@@ -90,7 +90,9 @@ def abstract_state(st, edges):
     return out
 
 
-def run_case(edges, res, margin, obs, radius, noise):
+def run_case(edges, res, margin, obs, radius, noise, scale=1):
+    """scale (a power of two, exact): the whole scene - network, track, search radius, noise - is expressed in another unit and the
+    answer scaled back; at 1/32 neighbouring lattice points are 3 cm apart (a receiver drifting slowly)"""
     from tracklib.core.track import Track
     from tracklib.core.obs import Obs
     from tracklib.core.obs_coords import ENUCoords
@@ -101,7 +103,8 @@ def run_case(edges, res, margin, obs, radius, noise):
     r2 = Fraction(radius) ** 2
     e = {"ev": "mapOnNetwork", "edges": [[list(p) for p in g] for g in edges], "obs": [list(p) for p in obs],
          "r2": [r2.numerator, r2.denominator], "raised": False, "zerodiv": False, "states": [], "cands": [], "pre": [], "post": [],
-         "cfg": {"res": res, "margin": margin, "radius": radius, "noise": noise}}
+         "cfg": {"res": res, "margin": margin, "radius": radius, "noise": noise, "scale": scale}}
+    radius, noise = radius * scale, noise * scale
     xs = [p[0] for g in edges for p in g]
     ys = [p[1] for g in edges for p in g]
     if res is not None:          # domain: at least one cell per axis
@@ -111,18 +114,18 @@ def run_case(edges, res, margin, obs, radius, noise):
     prio_common.install_wrappers()
     prio_common.take_logs()
     with core.quiet():
-        net = build_network(edges, res, margin)
+        net = build_network(edges, res, margin, scale)
     # histories of the priority queues used by prepare() (validated by PrioDictTrace, see run())
     _PQ.extend({"src": "prepare", "steps": st} for st in prio_common.take_logs() if all(x["v"] is not None for x in st))
     t0 = ObsTime(2020, 6, 15, 12, 0, 0).toAbsTime()
-    tr = Track([Obs(ENUCoords(float(p[0]), float(p[1]), 0.0), ObsTime.readUnixTime(t0 + 10 * k)) for k, p in enumerate(obs)])
+    tr = Track([Obs(ENUCoords(float(p[0]) * scale, float(p[1]) * scale, 0.0), ObsTime.readUnixTime(t0 + 10 * k)) for k, p in enumerate(obs)])
     ids = {}
 
     def snap():
         out = []
         for o in tr.getObsList() if hasattr(tr, "getObsList") else [tr.getObs(k) for k in range(tr.size())]:
             ids.setdefault(id(o), len(ids))
-            out.append([ids[id(o)], round(o.position.getX() * 1000), round(o.position.getY() * 1000),
+            out.append([ids[id(o)], round(o.position.getX() / scale * 1000), round(o.position.getY() / scale * 1000),
                         round(o.position.getZ() * 1000), round((o.timestamp.toAbsTime() - t0) * 1000)])
         return out
     e["pre"] = snap()
@@ -135,7 +138,7 @@ def run_case(edges, res, margin, obs, radius, noise):
             if coll:
                 from tracklib.core.track_collection import TrackCollection
                 ex, ey = edges[-1][0][0], edges[-1][0][1]
-                mk_decoy = lambda: Track([Obs(ENUCoords(float(ex + k % 2), float(ey), 0.0), ObsTime.readUnixTime(t0 + 10 * k)) for k in range(len(obs))])
+                mk_decoy = lambda: Track([Obs(ENUCoords(float(ex + k % 2) * scale, float(ey) * scale, 0.0), ObsTime.readUnixTime(t0 + 10 * k)) for k in range(len(obs))])
                 try:            # the decoy itself must be matchable (it may sit next to a vertical leg: known finding)
                     mapOnNetwork(mk_decoy(), net, gps_noise=noise, search_radius=radius, verbose=False)
                 except (Exception, SystemExit):
@@ -150,9 +153,9 @@ def run_case(edges, res, margin, obs, radius, noise):
                     mapOnNetwork(tr, net, gps_noise=noise, search_radius=radius, verbose=False)
                     e["cfg"]["entry"] = "track, matched twice"
             inf = [tr["hmm_inference", k] for k in range(tr.size())]
-        e["states"] = [abstract_state(s, edges) for s in inf]
+        e["states"] = [abstract_state(s, edges, scale) for s in inf]
         # the candidate lists the decoder chose from (module global of tracklib.algo.mapping)
-        e["cands"] = [[abstract_state(c, edges) for c in cl] for cl in mp_.STATES[-tr.size():]]
+        e["cands"] = [[abstract_state(c, edges, scale) for c in cl] for cl in mp_.STATES[-tr.size():]]
     except ZeroDivisionError as ex:
         e["raised"] = True
         e["zerodiv"] = True
@@ -216,7 +219,13 @@ def gen_track(rnd, edges, n, odd):
         if odd and x % 2 == 0:
             x += 1
         obs.append((x, y))
-    return obs
+        if rnd.random() < 0.25 and len(obs) < n:
+            # a slow drift: the following fixes move one lattice step at a time, straight away from (or along) the network
+            dx, dy = rnd.choice([(0, 1), (0, -1), (2, 0), (-2, 0)])
+            for _k in range(rnd.randrange(1, 5)):
+                if len(obs) < n:
+                    obs.append((obs[-1][0] + dx, obs[-1][1] + dy))
+    return obs[:n]
 
 
 def has_vertical_hit(edges, obs):
@@ -242,7 +251,7 @@ def job_random(args):
         obs = gen_track(rnd, edges, rnd.randrange(1, 8), odd=style < 0.45)
         res = rnd.choice(RES)
         margin = rnd.choice([0.05, 0.15, 0.5])
-        out.append(run_case(edges, res, margin, obs, rnd.choice(RADII), rnd.choice([1, 50])))
+        out.append(run_case(edges, res, margin, obs, rnd.choice(RADII), rnd.choice([1, 50]), scale=(1 / 32.0 if rnd.random() < 0.3 else 1)))
     return out + [{"ev": "pq", "hist": h} for h in _PQ[:40]]
 
 
